@@ -38,6 +38,7 @@ func checkC03(c *Ctx) {
 	c.R.Assumptions = []string{"encoding/json behaves as documented (nil slice -> null, omitempty semantics)", "net/http sends an implicit empty 200 when a handler returns without writing"}
 	c03Version(c)
 	c03EnvelopeType(c)
+	c03ResultPresent(c)
 	c09DataLineWhole(c, "R-data-line-whole")
 	c03Codes(c)
 	c03Status(c)
@@ -2472,4 +2473,73 @@ func c03EnvelopeType(c *Ctx) {
 	if n == 0 {
 		c.R.Break("R-envelope-type: no library value boxed into a wire sender's message parameter found")
 	}
+}
+
+// ---------------------------------------------------------------- R-result-present
+// A response carries exactly one of "result" and "error". The envelope's result member is `omitempty`, so a method
+// handler that reports success with a nil result (`return nil, nil`) produces {"jsonrpc":"2.0","id":…} — neither. The
+// functions the dispatch tables route requests to (and the functions they return the result of) therefore never return
+// a nil result together with a nil error; an empty result is an empty object.
+func c03ResultPresent(c *Ctx) {
+	targets := map[*ssa.Function]bool{}
+	for _, es := range c.MapLiteralDispatch() {
+		for _, e := range es {
+			if e.Target != nil && c.P.IsLib(e.Target) {
+				targets[e.Target] = true
+			}
+		}
+	}
+	if len(targets) < 5 {
+		c.R.Break("R-result-present: only %d dispatch targets found", len(targets))
+		return
+	}
+	sigOK := func(f *ssa.Function) bool {
+		r := f.Signature.Results()
+		if r.Len() != 2 || ir.TypeStr(r.At(1).Type()) != "error" {
+			return false
+		}
+		_, isIface := r.At(0).Type().Underlying().(*types.Interface)
+		return isIface
+	}
+	// functions whose result a target returns as its own (return m.handleX(ctx, req))
+	for changed := true; changed; {
+		changed = false
+		for f := range targets {
+			ir.EachInstr(f, func(_ *ssa.BasicBlock, _ int, in ssa.Instruction) {
+				ret, ok := in.(*ssa.Return)
+				if !ok || len(ret.Results) != 2 {
+					return
+				}
+				if ex, ok := ret.Results[0].(*ssa.Extract); ok {
+					if call, ok := ex.Tuple.(*ssa.Call); ok {
+						if sc := ir.StaticCallee(call); sc != nil && c.P.IsLib(sc) && sigOK(sc) && !targets[sc] {
+							targets[sc] = true
+							changed = true
+						}
+					}
+				}
+			})
+		}
+	}
+	n := 0
+	for _, f := range sortedFuncs(targets) {
+		if !sigOK(f) {
+			continue
+		}
+		n++
+		bad := ""
+		ir.EachInstr(f, func(blk *ssa.BasicBlock, _ int, in ssa.Instruction) {
+			ret, ok := in.(*ssa.Return)
+			if !ok || blk == f.Recover || len(ret.Results) != 2 {
+				return
+			}
+			rs := ir.Results(ret)
+			if ir.IsNilConst(rs[0]) && ir.IsNilConst(rs[1]) {
+				bad = c.Pos(ret.Pos())
+			}
+		})
+		c.R.Check(bad == "", "R-result-present", "success result of "+fname(f), c.Pos(f.Pos()), "never (nil, nil)",
+			sprintf("%s, which the dispatcher routes requests to, can return a nil result with a nil error (at %s): the response envelope omits a nil result, so the request is answered with neither \"result\" nor \"error\" — not a JSON-RPC response", fname(f), bad))
+	}
+	c.R.Min("R-result-present", 8)
 }
